@@ -429,6 +429,9 @@ def run_query(ctx, q, tag="", extra_defs=(), mut_overlay=None, want_replay=True,
                         ndefs = [d for d in defs]
                         st, txt, ncmd = native_replay(ctx, q, qdir, overlays, ndefs, srcs, rp)
                         res["native_replay"] = st
+                        with open(os.path.join(rdir, "replay.json"), "w") as f:
+                            json.dump({"property": ctx.pid, "query": qname, "build": [("native.exe" if x == os.path.join(qdir, "native.exe") else x) for x in ncmd],
+                                       "status_when_found": st, "failed": res["failed"]}, f, indent=1)
                         with open(os.path.join(rdir, "native.txt"), "w") as f:
                             f.write("status: %s\nbuild: %s\nrun: VP_REPLAY=replay.txt ./native.exe\n\n%s\n" % (st, " ".join(ncmd), txt))
                     else:
@@ -501,7 +504,10 @@ def main():
     ap.add_argument("--keep", action="store_true")
     ap.add_argument("--jobs", type=int, default=int(os.environ.get("VP_JOBS", "0") or 0))
     ap.add_argument("--no-evidence", action="store_true")
+    ap.add_argument("--replay", default="", help="re-run a saved counterexample natively (path of a replay directory)")
     args = ap.parse_args()
+    if args.replay:
+        sys.exit(do_replay(args.replay))
     t0 = time.time()
     jobs = args.jobs or min(16, os.cpu_count() or 4)
     work = tempfile.mkdtemp(prefix="vp.%s." % args.pid, dir=os.environ.get("TMPDIR", "/tmp"))
@@ -515,6 +521,38 @@ def main():
         else:
             shutil.rmtree(work, ignore_errors=True)
     sys.exit(rc)
+
+
+def do_replay(rdir):
+    """Rebuild the saved native harness against the CURRENT sources and run it on the saved inputs.
+    Exit 1 (and print the failing assertion) if the violation reproduces, 0 if it does not."""
+    rj = os.path.join(rdir, "replay.json")
+    if not os.path.exists(rj):
+        tr = os.path.join(rdir, "trace.txt")
+        say("no native replay recorded for this counterexample (schedule-level: see %s)" % tr)
+        return 1 if os.path.exists(tr) else 2
+    with open(rj) as f:
+        rec = json.load(f)
+    work = tempfile.mkdtemp(prefix="vp.replay.")
+    try:
+        exe = os.path.join(work, "native.exe")
+        cmd = [exe if x == "native.exe" else x for x in rec["build"]]
+        # harness / generated sources were copied next to the inputs: prefer those copies if the scratch path is gone
+        cmd = [os.path.join(rdir, os.path.basename(x)) if (x.endswith(".c") and not os.path.exists(x) and os.path.exists(os.path.join(rdir, os.path.basename(x)))) else x for x in cmd]
+        rc, o, e, _, _ = run_cmd(cmd, cwd=work, timeout=600)
+        if rc != 0:
+            say("replay build failed:\n" + (e or o)[-2000:])
+            return 2
+        env = dict(os.environ, VP_REPLAY=os.path.join(rdir, "replay.txt"), ASAN_OPTIONS="detect_leaks=0")
+        rc, o, e, _, _ = run_cmd([exe], cwd=work, timeout=120, env=env)
+        say((o or "") + (e or "")[-3000:])
+        if rc == 0:
+            say("replay: NOT reproduced (exit 0)")
+            return 0
+        say("replay: reproduced (exit %s) property=%s query=%s" % (rc, rec.get("property"), rec.get("query")))
+        return 1
+    finally:
+        shutil.rmtree(work, ignore_errors=True)
 
 
 def drive(ctx, args, t0):
